@@ -332,7 +332,7 @@ LINEAR_MAPS = [((1, 0), (0, 1)), ((1, 0), (0, 1)), ((0, -1), (1, 0)), ((-1, 0), 
                ((1, -1), (1, 1)), ((1, 2), (-1, 1)), ((3, 1), (1, 2))]
 
 
-def free_face_mesh(rng, nfaces, *, winding=None, shape_class=None, rotate=False):
+def free_face_mesh(rng, nfaces, *, winding=None, shape_class=None, rotate=False, tiny=False):
     """-> (Mesh, winding, info) ; info[f] = dict(label, ring (floats as stored, open), concave, collinear, triple, cw,
     sides, lattice_collinear).
 
@@ -348,6 +348,12 @@ def free_face_mesh(rng, nfaces, *, winding=None, shape_class=None, rotate=False)
     y0 = int(rng.integers(-60, 40))
     theta = float(rng.uniform(0.0, 2 * math.pi)) if rotate else 0.0
     ct, st = math.cos(theta), math.sin(theta)
+
+    if tiny:
+        # cells about 1e-4 degrees across, far from the origin (147 E, 43 S): absolute and relative tolerances that are
+        # harmless at "degree" scale are not at this one.  147 + k * 2**-14 is still exact in float64.
+        scale_pow, scale = -14, 2.0 ** -14
+        x0, y0 = 147 * 2 ** 14, -43 * 2 ** 14
 
     def to_float(ix, iy):
         fx, fy = (x0 + ix) * scale, (y0 + iy) * scale
